@@ -93,6 +93,15 @@ func crashTemplates(r *core.Rand) []*crashHist {
 		st = append(st, kgInsert("m8", 8, 2), kgInsert("m0", 8, 1), kgInsert("m4", 8, 3), kgInsert("m1", 0, 11), kgInsert("m8", 10, 1), kgTable("m9"), kgInsert("m2", 8, 2), kgInsert("m9", 0, 10))
 		mk("many-tables-root-moves", st...)
 	}
+	// T8: a table grown past the split of its internal root (290 leaves, the
+	// 1165th row): with nothing flushed recovery rebuilds the whole three-level
+	// tree from the log, with a flush in between it replays the internal split
+	// and the catalog record of the root move
+	mk("internal-root-split", kgTable("big"), kgInsert("big", 0, 500), kgInsert("big", 500, 500), kgInsert("big", 1000, 140),
+		&proto.Stmt{Kind: "delete", Table: "big", Where: model.Cmp("=", model.ColOp("g"), model.LitOp(intv(3)))},
+		kgInsert("big", 1140, 20), kgInsert("big", 1160, 10), kgInsert("big", 1170, 30),
+		&proto.Stmt{Kind: "update", Table: "big", Sets: []proto.SetItem{{Col: "s", Val: proto.Str("after-split")}}, Where: model.Cmp(">=", model.ColOp("k"), model.LitOp(intv(1150)))},
+		kgTable("side"), kgInsert("side", 0, 9), kgInsert("big", 1200, 100))
 	return out
 }
 
